@@ -89,6 +89,32 @@ theorem premaster_degenerate (G : Group) (A v u b : Nat) (hb : 0 < b) (hA : A % 
     premaster G A v u b = 0 := by
   rw [premaster_eq]; exact _root_.Srp.srp_degenerate G.N A v u b hb hA
 
+/-! ### the remaining functions of `hsrp.Server` under their own names -/
+
+/-- the constructor's `v`, `B`, `Bb` are `_get_verifier()`, `_derive_B()`, `long_to_bytes(B)`; what the
+    handler sends in M2 — `long_to_bytes(get_challenge()[1])` — is `Bb` -/
+theorem mk_named (H : Bytes → Bytes) (G : Group) (I p s : Bytes) (b : Nat) :
+    (mk H G I p s b).v = getVerifier H G s I p ∧
+    (mk H G I p s b).B = deriveB G (multK H G) (getVerifier H G s I p) b ∧
+    (mk H G I p s b).getChallenge = (s, (mk H G I p s b).B) ∧
+    natToBytes (mk H G I p s b).getChallenge.2 = (mk H G I p s b).Bb :=
+  ⟨rfl, rfl, rfl, rfl⟩
+
+/-- after `set_A`: `HAMK` is `_get_HAMK()`, `get_session_key_bytes()` is the digest `H(Sb)` itself (64 bytes
+    for SHA-512, leading zero bytes kept), and both `get_session_key()` and `_get_K()` are its integer value -/
+theorem setA_named (H : Bytes → Bytes) (srv : Server) (Ab : Bytes) :
+    (mkSess H srv Ab).HAMK = getHAMK H Ab (mkSess H srv Ab).M (mkSess H srv Ab).Kb ∧
+    (setA H srv Ab).sessionKeyBytes = some (H (mkSess H srv Ab).Sb) ∧
+    (setA H srv Ab).sessionKey = some (getK H (mkSess H srv Ab).Sb) ∧
+    getK H (mkSess H srv Ab).Sb = bytesToNat (mkSess H srv Ab).Kb :=
+  ⟨rfl, rfl, rfl, rfl⟩
+
+/-- the integer session key loses exactly the leading zero bytes of the digest: this is why the handler
+    must feed `get_session_key_bytes()` — not `long_to_bytes(get_session_key())` — to HKDF -/
+theorem sessionKey_bytes (H : Bytes → Bytes) (srv : Server) (Ab : Bytes) :
+    natToBytes (mkSess H srv Ab).K = (mkSess H srv Ab).Kb.dropWhile (· = 0) :=
+  l2b_b2l _
+
 /-- an honest `A = g^a mod N` is never ≡ 0 when `g` is coprime to `N > 1` -/
 theorem honest_A_ne_zero (G : Group) (a : Nat) (hN : 1 < G.N) (hg : Nat.Coprime G.g G.N) :
     powMod G.g a G.N % G.N ≠ 0 := by
